@@ -6,6 +6,7 @@ memory layout.  (Heap-history independence and whole-API purity are validated by
 Helper lemmas: `Proofs/C08.lean`.
 -/
 import Mahotas.Proofs.C08
+import Mahotas.Generated.Normalise
 open Mahotas Mahotas.C08
 
 namespace Mahotas.C08
@@ -107,6 +108,38 @@ exactly `c * stride` bytes modulo `2^64` — the signed element stride of the mo
 theorem C08_unsigned_stride_division (sb : Int) (sz c : Nat) (h64 : sz ∣ two64) (hdiv : (sz : Int) ∣ sb) :
     ((unsignedStepBytes sb sz c : Nat) : Int) = ((c : Int) * sb) % (two64 : Int) :=
   unsignedStep_eq sb sz c h64 hdiv
+
+/-- **T4 (wrapper accepts all layouts), decision logic.** `np.require(a, requirements='CAW')` and
+`np.array(a, order='C')` hand a behaved C array to the native `ISCARRAY` guard whatever the flags of the
+user's array; `requirements='CW'` does so for every aligned array (all seven layouts are aligned). -/
+theorem C08_normalisation_accepts_all_layouts (f : Flags) :
+    wrapperAccepts .requireCAW f = true ∧ wrapperAccepts .arrayC f = true ∧
+    (f.aligned = true → wrapperAccepts .requireCW f = true) := by
+  obtain ⟨c, a, w, o⟩ := f
+  cases c <;> cases a <;> cases w <;> cases o <;> decide
+
+/-- **Defect #17 as a theorem about the pinned normalisations.** `np.ascontiguousarray` returns a
+read-only C-contiguous array unchanged (so `fullhistogram`/`otsu`/`rc`/`pftas`/`convexhull` raised for
+read-only images), and `np.array(a)` with the default `order='K'` keeps Fortran order (so `relabel` /
+`remove_regions` raised for Fortran-ordered labels): in both cases valid data turned into an exception. -/
+theorem C08_pinned_normalisations_reject :
+    wrapperAccepts .ascontiguousarray { ccontig := true, aligned := true, writeable := false, fOrder := false } = false ∧
+    wrapperAccepts .arrayK { ccontig := false, aligned := true, writeable := true, fOrder := true } = false := by
+  decide
+
+/-- **Tie to the current source.** Every normalisation the translator finds today in front of the
+native guards of `_labeled` (`_as_labeled`, `_convert_labeled`), `_histogram` (`fullhistogram`) and
+`_convex` (`convexhull`) is one of the accepting ones: for all eight flag combinations of an aligned
+array the wrapper reaches the native code with a behaved C array. Reverting one of the repairs
+(`order='C'`, `requirements='CAW'`) changes `Generated.normSites` and breaks this theorem. -/
+theorem C08_wrappers_accept_all_layouts_source_tie :
+    (Generated.normSites.all fun site =>
+      match Norm.ofString site.2 with
+      | none => false
+      | some n =>
+        [true, false].all fun c => [true, false].all fun w => [true, false].all fun o =>
+          wrapperAccepts n { ccontig := c, aligned := true, writeable := w, fOrder := o }) = true := by
+  decide
 
 /-! non-vacuity: a reversed, transposed, gapped 3×2×2 view (negative and non-monotone strides, offset
     base) is well-formed; the iterator, `at_flat` and the address map agree on all 12 elements, and it
